@@ -218,6 +218,10 @@ def run_check(prop: str, run_rules, *, tier='quick', replay=None, thorough_extra
                 msg = f'{m.rel}: `{q_}`: renamed local(s) read under their recorded names: ' + ', '.join(f'{c}→{r}' for c, r in pairs_[:8]) + (' …' if len(pairs_) > 8 else '')
                 ck.notes.append(msg)
                 print(f'  note: {msg}')
+            if getattr(m, 'mirrored', 0):
+                msg = f'{m.rel}: {m.mirrored} symmetric comparison(s) written the other way round than in the confirmed tree are read in the recorded orientation'
+                ck.notes.append(msg)
+                print(f'  note: {msg}')
             if getattr(m, 'constants_read', 0):
                 msg = f'{m.rel}: {m.constants_read} module-level constant(s) that the confirmed tree does not have are read as their literals'
                 ck.notes.append(msg)
